@@ -79,7 +79,7 @@ func contains(l []string, s string) bool {
 func harness_C01_step() {
 	n := verifParam("rcpts", 2)
 	fsReset()
-	scriptNoVariants, scriptClasses, scriptMsgSym = false, 4, 0
+	scriptNoVariants, scriptClasses, scriptMsgSym = verifParam("variants", 1) == 0, 4, 0
 	dir := qDir()
 	rcpts := c01Rcpts[:n]
 	maxTries := nondetInt("maxTries", 1, 3)
